@@ -161,9 +161,13 @@ theorem stopHunt_keyed_on_mac (s : State) (mac ip1 ip2 : Bytes) :
   · cases hs; exact List.mem_erase_of_ne hm
   · cases hs
 
-/-- **Probe-reject rule**: a probe is answered with a reject reply iff the probing MAC holds an
-    outstanding DHCP offer for a different address and the probed address lies in the home LAN; the
-    hunt state is untouched either way. -/
+/-- **Probe-reject rule** of the machine: a probe event is answered with a reject reply iff its `offer`
+    parameter is an address different from the probed one and its `inLan` flag is set; the hunt state is
+    untouched either way.  Here `offer` and `inLan` are parameters of the abstract event.  What they ARE –
+    the sender hardware address and target protocol address of a well-formed ARP probe read off the frame
+    bytes by the reference reading `Spec.ArpWire`, the session's DHCP offer for that sender, and
+    `HomeLAN4.Contains` of the probed address – is `ComposeArp.probe_iff` / `ComposeArp.probe_reject_frame_iff`
+    (the rule on RAW frames); the content of the frames written is `C07.sent_arp_wf`. -/
 theorem probe_reject_iff (s : State) (smac : Bytes) (offer : Option Bytes) (tip : Bytes) (inLan : Bool) :
     ∃ o, step s (.rxProbe smac offer tip inLan) = some (s, o) ∧
       (o = .probeReject smac tip ↔ (∃ off, offer = some off ∧ off ≠ tip) ∧ inLan = true) ∧
@@ -357,6 +361,57 @@ theorem stopped_loop_restores_at_next_check (tr : List Event) (s : State) (os : 
   · rw [← hm]; simp [step, h1]
   · show ((setPc s1 i .done).loops i).pc = .done
     simp
+
+/-! ### liveness side: what is enabled ("periodically while hunted", "restoring packet within one cycle")
+
+  Wall-clock time is outside the machine (the ticker is the `wake` transition, measured by the harness:
+  first forged frame within the slack of StartHunt, the k-th within k cycles + slack, the restoring request
+  within one cycle + slack of StopHunt).  What the machine does say is that nothing but the ticker and the
+  mutex stands between a live loop and its frame: -/
+
+/-- a hunted loop at its check with the mutex free takes it for the forged announcement, which is then
+    the one thing it can do; afterwards it waits for the ticker with the mutex released -/
+theorem hunted_loop_forges_at_next_check (s : State) (i : Nat) (hc : (s.loops i).pc = .check) (hf : s.holder = none)
+    (hh : (s.loops i).mac ∈ s.hunt) (hopen : s.closed = false) :
+    ∃ s1, step s (.check i) = some (s1, .none) ∧ (s1.loops i).pc = .forge ∧
+      ∃ s2, step s1 (.forge i) = some (s2, .forged (s.loops i).mac) ∧ (s2.loops i).pc = .wait ∧ s2.holder = none := by
+  obtain ⟨s1, hs1, h1, hm⟩ : ∃ s1, step s (.check i) = some (s1, .none) ∧ (s1.loops i).pc = .forge ∧
+      (s1.loops i).mac = (s.loops i).mac :=
+    ⟨{ setPc s i .forge with holder := some (.loop i) }, by simp [step, free, hc, hf, hh, hopen],
+      by show ((setPc s i .forge).loops i).pc = .forge; simp,
+      by show ((setPc s i .forge).loops i).mac = (s.loops i).mac; simp⟩
+  refine ⟨s1, hs1, h1, { setPc s1 i .wait with holder := none }, ?_, ?_, rfl⟩
+  · rw [← hm]; simp [step, h1]
+  · show ((setPc s1 i .wait).loops i).pc = .wait
+    simp
+
+/-- **no live loop is ever stuck** in a reachable state: a waiting loop can be woken by its ticker, a loop
+    at its check can run it as soon as the mutex is free, and a loop that holds the mutex can write its
+    frame (which releases the mutex) – so the mutex is always released again, and every call waiting for
+    it (StopHunt, Close, StartHunt, the request branch) gets its turn -/
+theorem live_loop_can_step (tr : List Event) (s : State) (os : List Out) (hr : run {} tr = some (s, os)) (i : Nat) :
+    ((s.loops i).pc = .wait → (step s (.wake i)).isSome) ∧
+    ((s.loops i).pc = .check → s.holder = none → (step s (.check i)).isSome) ∧
+    ((s.loops i).pc = .forge → ∃ s', step s (.forge i) = some (s', .forged (s.loops i).mac) ∧ s'.holder = none) ∧
+    ((s.loops i).pc = .restore → ∃ s', step s (.restore i) = some (s', .restoring (s.loops i).mac) ∧ s'.holder = none) := by
+  refine ⟨fun h => by simp [step, h], fun h hf => ?_,
+    fun h => ⟨{ setPc s i .wait with holder := none }, by simp [step, h], rfl⟩,
+    fun h => ⟨{ setPc s i .done with holder := none }, by simp [step, h], rfl⟩⟩
+  simp only [step, h, free, hf, and_self, if_true]
+  split
+  · rfl
+  · split <;> rfl
+
+/-- whoever holds the mutex can release it by the step it is there for -/
+theorem mutex_holder_can_release (tr : List Event) (s : State) (os : List Out) (hr : run {} tr = some (s, os))
+    (h : Holder) (hh : s.holder = some h) : ∃ e s' o, step s e = some (s', o) ∧ s'.holder = none := by
+  have hI := inv_run inv_init hr
+  cases h with
+  | loop i =>
+    rcases hI.holderLoop i hh with hp | hp
+    · exact ⟨.forge i, { setPc s i .wait with holder := none }, .forged (s.loops i).mac, by simp [step, hp], rfl⟩
+    · exact ⟨.restore i, { setPc s i .done with holder := none }, .restoring (s.loops i).mac, by simp [step, hp], rfl⟩
+  | rx m => exact ⟨.reply m, { s with holder := none }, .spoofReply m, by simp [step, hh], rfl⟩
 
 /-- **Close stops all loops**: after Close no loop writes a forged announcement or a restoring
     request any more, whatever is called or received afterwards. -/
